@@ -1,0 +1,37 @@
+//! Instrumentation for the external verification harness.
+//!
+//! Compiled only when the crate is built with `--cfg rva_verif`; the normal
+//! build does not contain this module. The hooks only count events, they do
+//! not change any behaviour.
+use std::cell::RefCell;
+
+thread_local! {
+    static SWEEPS: RefCell<Vec<(&'static str, usize)>> = const { RefCell::new(Vec::new()) };
+}
+
+/// Record one sweep (one iteration of the `while changed` loop) of a pass.
+/// A new run of the pass is started with `begin`.
+pub fn sweep(pass: &'static str) {
+    SWEEPS.with(|s| {
+        let mut s = s.borrow_mut();
+        if let Some(last) = s.last_mut() {
+            if last.0 == pass {
+                last.1 += 1;
+                return;
+            }
+        }
+        s.push((pass, 1));
+    });
+}
+
+/// Mark the beginning of a run of a pass (so that two consecutive runs of the
+/// same pass are counted separately).
+pub fn begin(pass: &'static str) {
+    SWEEPS.with(|s| s.borrow_mut().push((pass, 0)));
+}
+
+/// Take the recorded (pass, sweeps) pairs, in order of execution.
+#[must_use]
+pub fn take() -> Vec<(&'static str, usize)> {
+    SWEEPS.with(|s| std::mem::take(&mut *s.borrow_mut()))
+}
